@@ -5,11 +5,12 @@ c1 = another one in which the request is acceptable on its own) is part of the m
 realisations per site. The prescriptive model keys the entry by the value alone (KeyedByValueOnly); the deviating variant
 OneTime.part.amo.cfg (key = context + value) must break AtMostOnce, otherwise the dimension would be vacuous.
 
-Pipeline: (1) TLC exhausts the prescriptive model (all invariants) and the descriptive model (the invariants the code
-is expected to keep); the per-site AtMostOnce invariants of the descriptive model are EXPECTED to be violated exactly
-at the sites whose deviation constant is still FALSE (prediction). (2) every maximal path of the descriptive model
-(2 requests quick, 2 and 3 requests thorough; with and without the validity window elapsing) is a schedule of primitive
-cache operations. (3) the Go driver replays each schedule on the real handlers over the gated real session database and
+Pipeline: (1) TLC exhausts the prescriptive model (all invariants), the descriptive model (what the code does: every
+site but the pre-authorized code is serialised; AtMostOnce at the repaired sites and the other invariants) and the permissive model (no lookup-and-burn atomic: the
+invariants that hold even so); the per-site AtMostOnce invariants of the descriptive model are EXPECTED to be violated
+exactly at the sites whose deviation constant is still FALSE (prediction; F6-preauth is left). (2) every maximal path of the
+PERMISSIVE model (2 requests quick, 2 and 3 requests thorough; with and without the validity window elapsing) is a schedule
+of primitive cache operations: the interleaved ones are those on which code without the serialisation fails. (3) the Go driver replays each schedule on the real handlers over the gated real session database and
 counts real successes per secret. (4) the recorded traces are validated by TLC against TraceOneTime.tla."""
 import collections, json, random, re, time
 from .. import vlib
@@ -65,10 +66,11 @@ def signature(v):
 
 
 def model_runs(tier, quick):
-    """TLC on the prescriptive / descriptive configs; returns (models, states, transitions, coverage, predicted sites)."""
+    """TLC on the prescriptive / descriptive / permissive configs; returns (models, states, transitions, coverage, predicted sites)."""
     models, cover = [], collections.Counter()
     states = transitions = 0
-    for cfg, what in (("OneTime.presc.%s.cfg" % tier, "prescriptive"), ("OneTime.desc.%s.cfg" % tier, "descriptive")):
+    for cfg, what in (("OneTime.presc.%s.cfg" % tier, "prescriptive"), ("OneTime.desc.%s.cfg" % tier, "descriptive"),
+                      ("OneTime.perm.%s.cfg" % tier, "permissive")):
         m = vlib.tlc("MCOneTime", cfg, workers=WORKERS, timeout=600, coverage=not quick)
         if m.error:
             raise Inconclusive("TLC %s: %s\n%s" % (cfg, m.error, m.raw[-1500:]))
@@ -107,7 +109,7 @@ def model_runs(tier, quick):
 
 
 def generate(cfgs, rnd):
-    """All maximal paths of the descriptive model -> driver scripts with concretised flavours."""
+    """All maximal paths of the permissive model -> driver scripts with concretised flavours."""
     scripts = []
     gens = []
     for cfg in cfgs:
@@ -265,7 +267,8 @@ def run(prop, tier, seed, replay=None):
                 rep.notes.append("NOTE: context %s is never honoured at site %s (the code binds it to the value now? then drop it from CONTEXTS)" % (a, SITE[k]))
     if ndrift > max(3, len(results) // 20):
         rep.inconclusive.append("%d schedule steps did not line up with the real primitives (spec/code drift)" % ndrift)
-    # prediction vs reality (informative: a repaired site simply stops reproducing)
+    # prediction vs reality (informative: a repaired site simply stops reproducing; a site that reproduces without being
+    # predicted is reported as a violation by the Go oracle above - no open finding matches it)
     for k in predicted:
         if not reproduced[k]:
             rep.notes.append("NOTE: the descriptive specification predicts a concurrent double success at %s; the real code did not "
@@ -313,8 +316,10 @@ def run(prop, tier, seed, replay=None):
                schedule_drift_notes=ndrift, steps_outside_schedule=ndeferred, inconclusive_scripts=ninc,
                action_coverage=cover, known_findings_hit=sorted(rep.known),
                rule="TLC exhausts OneTime.tla for every call site: the prescriptive variant (atomic lookup-and-burn) satisfies "
-                    "AtMostOnce, DeadAfterFailedRedemption, NoSuccessAfterExpiry; the descriptive variant (what the code does) "
-                    "satisfies the latter two. EVERY maximal path of the descriptive variant (all interleavings of the primitive "
+                    "AtMostOnce, DeadAfterFailedRedemption, NoSuccessAfterExpiry; the descriptive variant (what the code does: every site but "
+                    "the pre-authorized code is serialised since the repairs of F6) satisfies AtMostOnce at the repaired sites and the "
+                    "other two; the permissive variant (no lookup-and-burn atomic) "
+                    "satisfies the latter two. EVERY maximal path of the permissive variant (all interleavings of the primitive "
                     "cache operations of 2%s requests of every flavour combination, with and without the validity window elapsing) "
                     "is replayed gate by gate, with the value presented in the original and in other request contexts (other client_id / scope / "
                  "tenant / DPoP header / presentation / proof / wallet_nonce), on the real HTTP handlers over the real in-memory session database; the number of "
